@@ -61,6 +61,9 @@ def leaf_val(o):
 
 _injected = []
 
+# the dict subclasses of the abstract universe (exact classes): tag of ('D', tag, kvs)
+_DICT_SUBCLASSES = {collections.OrderedDict: "od", collections.defaultdict: "dd", collections.Counter: "ctr"}
+
 
 def _ident(v):
     return v
@@ -74,11 +77,36 @@ def _mentions(t, ci):
     return False
 
 
+def _td_level(name, part, total, bases=()):
+    """one class of a TypedDict hierarchy: its OWN keys `part` under its own totality; a key whose requiredness differs
+    from the class's totality carries the explicit marker (`total=` applies to a class's own keys only: inherited keys
+    keep the requiredness their class gave them)"""
+    anns = {n: (t if r == total else (Required[t] if r else NotRequired[t])) for n, t, r in part}
+    kw = {} if total else {"total": False}
+    return types.new_class(name, bases or (TypedDict,), kw, lambda ns: ns.update({"__annotations__": anns}))
+
+
 def make_typeddict(name, fs, style):
-    """The same abstract TypedDict (fs = [(key, type, required)]) spelled in one of the three ways Python offers:
+    """The same abstract TypedDict (fs = [(key, type, required)]; the model sees this flat list) spelled in one of the
+    ways Python offers:
     0: total + NotRequired[...];  1: total=False + Required[...];  2: a total=False subclass of a total base (only when
-    the required keys come first, so that declaration order is kept)."""
+    the required keys come first, so that declaration order is kept);
+    MIXED-TOTALITY INHERITANCE with markers (declaration order kept: the base takes a prefix of the keys):
+    3: total base + total=False child;  4: total=False base + total child;  5: three levels, totality alternating
+    (total, total=False, total).  Keys that disagree with their class's totality are spelled Required / NotRequired."""
     reqs = [r for _, _, r in fs]
+    if style in (3, 4, 5) and len(fs) >= 2:
+        if style == 5 and len(fs) >= 3:
+            i, j = 1, max(2, (len(fs) + 1) // 2)
+            b0 = _td_level(name + "B0", fs[:i], True)
+            b1 = _td_level(name + "B1", fs[i:j], False, (b0,))
+            return _td_level(name, fs[j:], True, (b1,))
+        i = max(1, len(fs) // 2)
+        base_total = style != 4
+        base = _td_level(name + "B", fs[:i], base_total)
+        return _td_level(name, fs[i:], not base_total, (base,))
+    if style in (3, 4, 5):
+        style = style % 2
     if style == 2 and (sorted(reqs, reverse=True) != reqs or all(reqs) or not any(reqs)):
         style = 0
     if style == 0:
@@ -110,14 +138,14 @@ class Realised:
             self._cls_index[cl] = ci
 
     # ------------------------------------------------------------------ classes
-    def _default(self, d):
+    def _default(self, d, ty=None):
         """-> (is_factory, python default or factory)"""
         if d is None:
             return None
         kind, v = d
         if kind == "c":
             return ("c", self.val(v))
-        return ("fac", (lambda v=v: self.val(v)))
+        return ("fac", (lambda v=v: self.fix_factories(ty, self.val(v))))
 
     def _make_class(self, ci, c):
         self._building = ci
@@ -154,7 +182,8 @@ class Realised:
         kind = c["kind"]
         if kind == "td":
             fs = [(f["name"], self.ty(f["ty"]) if f["ty"] is not None else Any, f.get("required", True)) for f in c["fields"]]
-            return make_typeddict(name, fs, (self.uid + ci) % 3)
+            # (a self-referential TypedDict stays one class: `Self` / a forward reference inside a BASE would name the base)
+            return make_typeddict(name, fs, (self.uid + ci) % (3 if c.get("recursive") else 6))
         if kind == "nt":
             # `class K(NamedTuple): a: T1; b: T2 = d` (class syntax, so that defaults are possible); every other
             # class is spelled through the functional form `NamedTuple(name, [...])`
@@ -176,7 +205,7 @@ class Realised:
                 if f.get("inherited"):
                     continue
                 kw = {}
-                d = self._default(f["dflt"])
+                d = self._default(f["dflt"], f["ty"])
                 if d is not None:
                     if d[0] == "c":
                         kw["default"] = d[1]
@@ -200,7 +229,7 @@ class Realised:
                 if f.get("inherited"):
                     continue
                 kw = {}
-                d = self._default(f["dflt"])
+                d = self._default(f["dflt"], f["ty"])
                 if d is not None:
                     if d[0] == "c":
                         kw["default"] = d[1]
@@ -267,6 +296,14 @@ class Realised:
             return typing.Mapping[self.ty(t[1]), self.ty(t[2])]
         if k == "mmap":
             return typing.MutableMapping[self.ty(t[1]), self.ty(t[2])]
+        if k in ("odict", "ddict", "counter"):
+            # collections.X[...] or the typing alias of the same class (per world and type)
+            alt = (self.uid + len(repr(t))) % 2 == 0
+            if k == "odict":
+                return (typing.OrderedDict if alt else collections.OrderedDict)[self.ty(t[1]), self.ty(t[2])]
+            if k == "ddict":
+                return (typing.DefaultDict if alt else collections.defaultdict)[self.ty(t[1]), self.ty(t[2])]
+            return (typing.Counter if alt else collections.Counter)[self.ty(t[1])]
         if k == "opt":
             inner = self.ty(t[1])
             style = (self.uid + len(repr(t))) % 3
@@ -321,10 +358,11 @@ class Realised:
         one = {"list": "list[%s]", "seq": "typing.Sequence[%s]", "mseq": "typing.MutableSequence[%s]", "tup*": "tuple[%s, ...]",
                "opt": "typing.Optional[%s]", "deque": "collections.deque[%s]", "set": "set[%s]",
                "mset": "typing.MutableSet[%s]", "fset": "frozenset[%s]", "final": "typing.Final[%s]",
-               "ann": "typing.Annotated[%s, 'meta']"}
+               "ann": "typing.Annotated[%s, 'meta']", "counter": "collections.Counter[%s]"}
         if k in one:
             return one[k] % self._ty_src(t[1])
-        two = {"dict": "dict[%s, %s]", "map": "typing.Mapping[%s, %s]", "mmap": "typing.MutableMapping[%s, %s]"}
+        two = {"dict": "dict[%s, %s]", "map": "typing.Mapping[%s, %s]", "mmap": "typing.MutableMapping[%s, %s]",
+               "odict": "collections.OrderedDict[%s, %s]", "ddict": "collections.defaultdict[%s, %s]"}
         if k in two:
             return two[k] % (self._ty_src(t[1]), self._ty_src(t[2]))
         if k == "tup":
@@ -354,6 +392,14 @@ class Realised:
             return frozenset(self.val(x) for x in o[1])
         if t == "d":
             return {self.val(k): self.val(v) for k, v in o[1]}
+        if t == "D":
+            d = {self.val(k): self.val(v) for k, v in o[2]}
+            if o[1] == "od":
+                return collections.OrderedDict(d)
+            if o[1] == "dd":
+                # (the default_factory of an INPUT is irrelevant to unstructuring; the oracles check the factory of results)
+                return collections.defaultdict(None, d)
+            return collections.Counter(d)
         if t == "I":
             cl = self.classes[o[1]]
             c = self.world["classes"][o[1]]
@@ -373,6 +419,51 @@ class Realised:
             return Opaque(o[1])
         raise ValueError(o)
 
+    def _ddicts(self, t, v, _depth=0):
+        """yield (type, value) for every `defaultdict[K, V]` position of t met in v (type-directed walk)"""
+        if isinstance(t, str) or t is None or _depth > 12:
+            return
+        world = self.world
+        k = t[0]
+        if k == "ddict":
+            yield (t, v)
+        if k in ("list", "seq", "mseq", "tup*", "deque", "set", "mset", "fset"):
+            items = [(t[1], e) for e in v] if isinstance(v, (list, tuple, set, frozenset, collections.deque)) else []
+        elif k == "tup":
+            items = list(zip(t[1], v)) if isinstance(v, tuple) else []
+        elif k in ("dict", "map", "mmap", "odict", "ddict"):
+            items = [(t[2], e) for e in v.values()] if isinstance(v, dict) else []
+        elif k in ("opt", "new", "ann", "final", "alias"):
+            items = [(t[1], v)] if v is not None else []
+        elif k in ("cls", "nt"):
+            items = [(f["ty"], getattr(v, f["name"], None)) for f in world["classes"][t[1]]["fields"]] \
+                if type(v) is self.classes[t[1]] else []
+        elif k == "td":
+            items = [(f["ty"], v[f["name"]]) for f in world["classes"][t[1]]["fields"] if f["name"] in v] \
+                if isinstance(v, dict) else []
+        elif k == "union":
+            items = [(("cls", m), v) for m in t[1] if type(v) is self.classes[m]]
+        else:
+            items = []
+        for t2, e in items:
+            yield from self._ddicts(t2, e, _depth + 1)
+
+    def factories_ok(self, t, v):
+        """the `default_factory` rule of defaultdict types: every defaultdict met in v at a `defaultdict[K, V]` position
+        of t has `default_factory == V` (`defaultdict_structure_factory`: "the value type parameter will be used as the
+        default factory").  Returns the first offending (type, value) or None."""
+        for t2, e in self._ddicts(t, v):
+            if isinstance(e, collections.defaultdict) and e.default_factory != self.ty(t2[2]):
+                return (t2, e)
+        return None
+
+    def fix_factories(self, t, v):
+        """make a realised value a genuine value of t: its defaultdicts get the declared value type as default_factory"""
+        for t2, e in self._ddicts(t, v):
+            if isinstance(e, collections.defaultdict):
+                e.default_factory = self.ty(t2[2])
+        return v
+
     def abs_un(self, v):
         """python value -> abstract object, for UNSTRUCTURED data: an instance of a NamedTuple class that passed
         through (nothing to convert) counts as the tuple it is"""
@@ -391,6 +482,8 @@ class Realised:
                 return (tag, [self.abs(x, True) for x in v])
             if cl is dict:
                 return ("d", [(self.abs(k, True), self.abs(x, True)) for k, x in v.items()])
+            if cl in _DICT_SUBCLASSES:
+                return ("D", _DICT_SUBCLASSES[cl], [(self.abs(k, True), self.abs(x, True)) for k, x in v.items()])
             if cl in self._cls_index:
                 ci = self._cls_index[cl]
                 try:
@@ -425,6 +518,8 @@ class Realised:
             return ("F", [self.abs(x) for x in v])
         if cl is dict:
             return ("d", [(self.abs(k), self.abs(x)) for k, x in v.items()])
+        if cl in _DICT_SUBCLASSES:
+            return ("D", _DICT_SUBCLASSES[cl], [(self.abs(k), self.abs(x)) for k, x in v.items()])
         if cl in self._cls_index:
             ci = self._cls_index[cl]
             fs = []
